@@ -154,6 +154,15 @@ var typeIDs = map[string]string{}
 var typeByID = map[string]types.Type{}
 
 func typeID(t types.Type) string {
+	// byte and rune are aliases: one heap per underlying basic type
+	if b, ok := t.(*types.Basic); ok {
+		switch b.Kind() {
+		case types.Uint8:
+			t = types.Typ[types.Uint8]
+		case types.Int32:
+			t = types.Typ[types.Int32]
+		}
+	}
 	s := typeName(t)
 	if id, ok := typeIDs[s]; ok {
 		return id
